@@ -1,5 +1,6 @@
 import LyModel.Props.C09
 import LyModel.Props.C09Compiled
+import LyModel.Props.C09DepSet
 #print axioms LyModel.Props.C09.failed_op_restores_partial
 #print axioms LyModel.Props.C09.failed_op_restores_fails
 #print axioms LyModel.Props.C09.failed_implement_keeps_features
@@ -24,3 +25,6 @@ import LyModel.Props.C09Compiled
 #print axioms LyModel.Props.C09.descOf_congr
 #print axioms LyModel.Props.C09.compiled_schema_restored_of_fresh
 #print axioms LyModel.Props.C09.compiled_untouched_before_compile
+#print axioms LyModel.Ctx.depSetsCreate_closure
+#print axioms LyModel.Props.C09.amend_targets_in_dep_set
+#print axioms LyModel.Props.C09.targets_flagged_after_dep_sets
